@@ -681,6 +681,10 @@ func TestC31(t *testing.T) {
 		}
 	}
 	if rf := r.Replay(); rf != nil && len(rf.Witness) > 0 {
+		if c31ConcReplay(r, rf.Witness) {
+			r.Finish(0)
+			return
+		}
 		var c c31Case
 		if err := json.Unmarshal(rf.Witness, &c); err == nil && len(c.Ops) > 0 {
 			crash := false
@@ -752,6 +756,9 @@ func TestC31(t *testing.T) {
 	}
 	close(ch)
 	wg.Wait()
+
+	// concurrent part: readers against a running notifier (c31_conc_test.go)
+	c31Concurrent(r)
 
 	r.Count("notifications", st.notifies)
 	r.Count("notifications_after_gap", st.gaps)
